@@ -665,4 +665,33 @@ def dumpRaw (fixed : Bool) (size : Nat) (data : List Byte) : Nat × Nat :=
   if fixed && decide (size > 8) then (ofLe (data.take size), 0)
   else (ofLe (data.take (min size 8)), size)
 
+/-! ## the agent's deep copy of the trigger tree: utils/filter.c deep_copy_filter / deep_copy_triggers
+
+`uftrace live -p PID …` makes the libmcount agent copy the whole tree (`uftrace_deep_copy_triggers`), apply the new
+options to the copy and swap it in: from then on save_to_argbuf walks the COPIED `filter->args` lists, while the
+readers keep decoding by the info file.  `deep_copy_filter`:
+`INIT_LIST_HEAD(&new->args); list_for_each_entry(arg, &old->args, list) { copy; list_add_tail(&copy->list, &new->args); }`
+`addTail = true` is the code as it is (`list_add_tail`); `false` is `list_add` (link at the head). -/
+def copyArgsG (addTail : Bool) (l : List LSpec) : List LSpec :=
+  l.foldl (fun acc a => if addTail then acc ++ [a] else a :: acc) []
+
+def copyArgs (l : List LSpec) : List LSpec := copyArgsG true l
+
+/-- the rb-tree of filters (shape kept: the copy mirrors the nodes and their colours) -/
+inductive FTree where
+  | leaf
+  | node (l : FTree) (start stop : Nat) (args : List LSpec) (r : FTree)
+  deriving DecidableEq, Repr, Inhabited
+
+/-- deep_copy_triggers: the node, then the left and the right subtree -/
+def copyTree : FTree → FTree
+  | .leaf => .leaf
+  | .node l s e a r => .node (copyTree l) s e (copyArgs a) (copyTree r)
+
+/-- uftrace_match_filter on the model tree -/
+def FTree.find : FTree → Nat → Option (List LSpec)
+  | .leaf, _ => none
+  | .node l s e a r, addr =>
+    if s ≤ addr ∧ addr < e then some a else if s > addr then l.find addr else r.find addr
+
 end Uft.Argbuf
